@@ -30,6 +30,11 @@ def hang_violations(F: Facts, prop):
     if not str(F.end).startswith('cut:'):
         return out
     verdict = F.end.split(':', 1)[1]
+    if verdict == 'HORIZON':
+        # the virtual-time horizon (600 s) was reached while the workload was still producing trace records (silence
+        # for 10 virtual seconds would have cut the run earlier): a long run, not a hang - inconclusive, counted under
+        # run_endings in the evidence
+        return out
     waiting = []
     for aw in F.awaits:
         if aw.e is None:
